@@ -30,13 +30,15 @@ TECHNIQUE = 'differential oracle (list concatenation) over generated merge input
 
 def plan(tier, seed):
     per = 8 if tier == 'quick' else 250
-    return [{'seed': seed * 1000 + i, 'n': per} for i in range(16)]
+    extra = [{'seed': seed, 'n': 0, 'many_parts': 261}] if tier == 'thorough' else []
+    return [{'seed': seed * 1000 + i, 'n': per, 'hashseed': i % 4} for i in range(16)] + extra
 
 
 def required(tier):
     return {
         'classes': ['refused:differing-field-sets', 'refused:mixed-identification',
                     'naming:pattern', 'naming:list', 'assoc:yes', 'assoc:no', 'ids:yes',
+                    'assoc-fields:vx_species:species-differ-per-part',
                     'ids:no', 'inputs:1', 'inputs:6'],
         'counters': {'seam_reads': 50, 'beyond_end_reads': 10, 'id_lookups': 50},
         'evaluations': 300,
@@ -55,6 +57,10 @@ def one_merge(rng, workdir: Path, rec, k):
     nin = rng.choice([1, 2, 2, 3, 3, 4, 5, 6])
     with_ids = rng.random() < 0.5
     with_assoc = rng.random() < 0.4
+    # species-indexed data in the associated files; every part may carry its own species
+    assoc_fs = 'vx_species' if with_assoc and rng.random() < 0.5 else 'vx_simple'
+    per_part_species = assoc_fs == 'vx_species' and rng.random() < 0.6
+    plan_all = vf.species_plan(rng, rng.choice(['gapped', 'prefix', 'single']))
     pattern = rng.random() < 0.4
     tag = f'{rng.getrandbits(36):x}'
     d = workdir / f'case{tag}'
@@ -68,21 +74,25 @@ def one_merge(rng, workdir: Path, rec, k):
     uid = k * 10000
     id_pool = rng.sample(range(-500, 5000), 80)
     model, ids, seams, bases, assocs = [], {}, [], [], []
+    max_nb = 1
     for name in names:
         base = d / f'{name}.nc'
         assoc = d / f'x_{name}.nc'
         kw = {}
         if with_assoc:
-            kw['associated_files'] = [(assoc, ['vx_simple'])]
+            kw['associated_files'] = [(assoc, [assoc_fs])]
+        plan_part = vf.species_plan(rng, rng.choice(['gapped', 'prefix', 'single', 'per-field'])) \
+            if per_part_species else plan_all
         st = TrajectoryStore.create(base_file=base, **kw)
         for _ in range(rng.randint(1, 9)):
             uid += 1
             fid = id_pool.pop() if with_ids else None
             t = trajgen.make_base_traj(nprng, rng.randint(1, 7), uid, flight_id=fid)
             if with_assoc:
-                t.add_fields(vf.VX_SIMPLE)
-                vf.fill(t, 'vx_simple', rng)
+                t.add_fields(vf.ALL[assoc_fs])
+                vf.fill(t, assoc_fs, rng, plan=plan_part, unset_prob=0.0)
             st.add(t)
+            max_nb = max(max_nb, t.nbytes)
             if with_ids:
                 ids[fid] = len(model)
             model.append(trajgen.snapshot(t))
@@ -91,7 +101,8 @@ def one_merge(rng, workdir: Path, rec, k):
         bases.append(base)
         assocs.append(assoc)
     out = d / 'merged.aeic-store'
-    case = {'inputs': names, 'sizes': [b - a for a, b in zip([0] + seams, seams)],
+    case = {'assoc_fields': assoc_fs if with_assoc else None,
+            'species_differ_per_part': per_part_species, 'inputs': names, 'sizes': [b - a for a, b in zip([0] + seams, seams)],
             'pattern': pattern, 'ids': with_ids, 'assoc': with_assoc}
     try:
         if pattern:
@@ -111,7 +122,8 @@ def one_merge(rng, workdir: Path, rec, k):
     except Exception as e:  # noqa: BLE001
         raise Mismatch('valid merge raised', {'error': f'{type(e).__name__}: {e}', **case})
     small = rng.random() < 0.4
-    st = TrajectoryStore.open(base_file=out, cache_size_mb=0.002 if small else 64, **kw)
+    st = TrajectoryStore.open(base_file=out,
+                               cache_size_mb=1.5 * max_nb / (1024 * 1024) if small else 64, **kw)
     try:
         rec.ev()
         if len(st) != len(model):
@@ -179,6 +191,9 @@ def one_merge(rng, workdir: Path, rec, k):
                            {'got': fg, **case})
     finally:
         st.close()
+    if with_assoc:
+        rec.cls(f'assoc-fields:{assoc_fs}' + (':species-differ-per-part' if per_part_species
+                                              else ''))
     rec.cls(f'inputs:{nin}', 'naming:' + ('pattern' if pattern else 'list'),
             'ids:' + ('yes' if with_ids else 'no'), 'assoc:' + ('yes' if with_assoc else 'no'),
             'cache:' + ('small' if small else 'large'),
@@ -227,11 +242,72 @@ def refusals(rng, workdir: Path, rec, k):
         shutil.rmtree(d, ignore_errors=True)
 
 
+def many_parts(rng, workdir: Path, rec, nparts):
+    """A merged base store plus a separately merged associated store with several hundred
+    constituent files (thorough tier)."""
+    import numpy as np
+
+    import vlib.fieldsets as vf
+    from AEIC.trajectories import TrajectoryStore
+    from vlib import trajgen
+    from vlib.storeops import Mismatch
+
+    nprng = np.random.default_rng(rng.getrandbits(32))
+    d = workdir / 'many'
+    d.mkdir()
+    model, bases, assocs = [], [], []
+    for j in range(nparts):
+        b, a = d / f'p_{j}.nc', d / f'x_{j}.nc'
+        st = TrajectoryStore.create(base_file=b, associated_files=[(a, ['vx_simple'])])
+        t = trajgen.make_base_traj(nprng, 2, j + 1, flight_id=5000 - j)
+        t.add_fields(vf.VX_SIMPLE)
+        vf.fill(t, 'vx_simple', rng)
+        st.add(t)
+        st.close()
+        model.append(trajgen.snapshot(t))
+        bases.append(b)
+        assocs.append(a)
+    case = {'parts': nparts}
+    try:
+        TrajectoryStore.merge(d / 'm.aeic-store', input_stores_pattern=str(d / 'p_{index}.nc'),
+                              input_stores_index_range=(0, nparts - 1))
+        TrajectoryStore.merge(d / 'mx.aeic-store', input_stores=list(assocs))
+        st = TrajectoryStore.open(base_file=d / 'm.aeic-store',
+                                  associated_files=[d / 'mx.aeic-store'])
+    except Exception as e:  # noqa: BLE001
+        raise Mismatch('a consistent merged base + merged associated store with many parts is '
+                       'refused / fails', {'error': f'{type(e).__name__}: {str(e)[:200]}', **case})
+    try:
+        rec.ev()
+        if len(st) != nparts:
+            raise Mismatch('merged length differs from the sum of input lengths',
+                           {'len': len(st), **case})
+        for i in [0, 1, 255, 256, 257, nparts - 1] + rng.sample(range(nparts), 10):
+            rec.ev()
+            df = trajgen.compare(model[i], st[i])
+            if df:
+                raise Mismatch('merged store[i] has altered contents', {'index': i,
+                                                                        'diffs': df[:4], **case})
+            got = st.get_flight(5000 - i)
+            if got is None or trajgen.fingerprint(got) != trajgen.fingerprint(model[i]):
+                raise Mismatch('merged id lookup wrong', {'index': i, **case})
+    finally:
+        st.close()
+    rec.cls('inputs:many(>256)')
+    shutil.rmtree(d, ignore_errors=True)
+
+
 def run_shard(spec, rec):
     from vlib.storeops import Mismatch
 
     workdir = Path(tempfile.mkdtemp(prefix='c09-'))
     try:
+        if spec.get('many_parts'):
+            try:
+                many_parts(random.Random(spec['seed']), workdir, rec, spec['many_parts'])
+            except Mismatch as m:
+                rec.violation(m.mechanism, m.detail, {'spec': dict(spec), 'k': 'many'})
+            return
         ks = [spec['only']] if 'only' in spec else range(spec['n'])
         for k in ks:
             for part, fn in (('merge', one_merge), ('refusals', refusals)):
